@@ -14,6 +14,8 @@ import (
 	"sync/atomic"
 	"time"
 
+	"github.com/xinchentechnote/fin-proto-go/codec"
+
 	"verif/internal/bind"
 	"verif/internal/gen"
 	"verif/internal/schema"
@@ -95,6 +97,64 @@ func buildParallelCases(e *Env, perType int, useRef bool) []pcase {
 	return cs
 }
 
+// parFailers are values whose Encode must fail; they are built once, before the goroutines start, and only cloned afterwards.
+var parFailers []any
+
+func buildParFailers(e *Env) {
+	parFailers = nil
+	for _, t := range e.S.Order {
+		for _, f := range t.Fields {
+			if f.Kind != "union" {
+				continue
+			}
+			g := &gen.Gen{S: e.S, C: e.C, R: gen.NewRng(e.Seed, "C20", "failer", t.QName), O: &gen.Opts{}}
+			v := g.Value(t)
+			reflect.ValueOf(v).Elem().FieldByName(f.Name).Set(reflect.ValueOf(&failingBody{N: 5}))
+			parFailers = append(parFailers, v)
+			if f.Fill {
+				// absent body with an unregistered key: the encoder has to refuse
+				u := g.Value(t)
+				setKeyField(u, f.Key, g.UnregKeyFor(e.S.Table(t.Pkg, f.Table)))
+				fv := reflect.ValueOf(u).Elem().FieldByName(f.Name)
+				fv.Set(reflect.Zero(fv.Type()))
+				parFailers = append(parFailers, u)
+			}
+		}
+		for _, s := range lenSites(t) {
+			if s.what == "count" && s.max == 0xFFFF && (t.Pkg == "sample" || t.Pkg == "sse") {
+				g := &gen.Gen{S: e.S, C: e.C, R: gen.NewRng(e.Seed, "C20", "failer-long", t.QName), O: &gen.Opts{Lens: []int{1}, StrLens: []int{2}}}
+				v := g.Value(t)
+				setLen(e, t, v, s, s.max+1, g)
+				parFailers = append(parFailers, v)
+				break
+			}
+		}
+	}
+	// frames carrying a body that itself refuses (an extended message with an unregistered id and no extension)
+	for _, t := range e.S.Order {
+		for _, f := range t.Fields {
+			if f.Kind != "union" || f.Key != "MsgType" {
+				continue
+			}
+			tb := e.S.Table(t.Pkg, f.Table)
+			for _, en := range tb.Entries {
+				bt := e.S.Lookup(t.Pkg, en.Type)
+				for _, bf := range bt.Fields {
+					if bf.Kind == "union" && bf.Fill {
+						g := &gen.Gen{S: e.S, C: e.C, R: gen.NewRng(e.Seed, "C20", "failer-frame", t.QName, bt.QName), O: &gen.Opts{ForceKey: map[string]any{tb.QName: en.Key}}}
+						v := g.Value(t)
+						body := reflect.ValueOf(v).Elem().FieldByName(f.Name).Elem().Interface()
+						setKeyField(body, bf.Key, g.UnregKeyFor(e.S.Table(bt.Pkg, bf.Table)))
+						bfv := reflect.ValueOf(body).Elem().FieldByName(bf.Name)
+						bfv.Set(reflect.Zero(bfv.Type()))
+						parFailers = append(parFailers, v)
+					}
+				}
+			}
+		}
+	}
+}
+
 type pmismatch struct {
 	goroutine, caseIdx int
 	op, detail         string
@@ -105,6 +165,11 @@ type pmismatch struct {
 func runParallel(e *Env, cs []pcase, G, ops int, label string) (evs [][]pevent, bad []pmismatch) {
 	evs = make([][]pevent, G)
 	bads := make([][]pmismatch, G)
+	caseIdx := map[reflect.Type][]int{} // read-only once the goroutines run
+	for i := range cs {
+		ty := reflect.TypeOf(cs[i].v)
+		caseIdx[ty] = append(caseIdx[ty], i)
+	}
 	var ready int32
 	var wg sync.WaitGroup
 	start := time.Now()
@@ -114,6 +179,7 @@ func runParallel(e *Env, cs []pcase, G, ops int, label string) (evs [][]pevent, 
 			defer wg.Done()
 			rng := gen.NewRng(e.Seed, "C20", label, gi)
 			algs := c14algs()
+			byType := caseIdx
 			sendBuf := new(bytes.Buffer)
 			my := make([]pevent, 0, 2*ops)
 			var mybad []pmismatch
@@ -125,6 +191,19 @@ func runParallel(e *Env, cs []pcase, G, ops int, label string) (evs [][]pevent, 
 			}
 			for k := 0; k < ops; k++ {
 				ci := rng.Intn(len(cs))
+				if k%16 >= 5 && k%16 <= 8 && len(parFailers) > 0 {
+					// an encode that fails (over-long list, unregistered key with absent body, a body that refuses),
+					// into a buffer that is thrown away: error paths return pooled objects too.  All goroutines pick
+					// the SAME failing type for the same k, and follow it with three ordinary encodes of that type,
+					// so that several goroutines are in that type's encoder right after its error path ran.
+					f := parFailers[(k/16)%len(parFailers)]
+					if k%16 == 5 {
+						LibEncode(val.Clone(f), new(bytes.Buffer))
+					}
+					if idx := byType[reflect.TypeOf(f)]; len(idx) > 0 {
+						ci = idx[rng.Intn(len(idx))]
+					}
+				}
 				c := &cs[ci]
 				// encode a private clone into this goroutine's private send buffer, which usually still holds
 				// the frames queued before (it is emptied every 64 KiB)
@@ -166,7 +245,7 @@ func runParallel(e *Env, cs []pcase, G, ops int, label string) (evs [][]pevent, 
 				}
 				// the four checksum services, called directly on a private buffer (CRC16 is used by no
 				// generated codec, so only this call reaches it concurrently)
-				if k%4 == 0 {
+				if k%4 == 0 && !servicesAbsent {
 					priv := append([]byte(nil), c.bytes...)
 					t0 = int64(time.Since(start))
 					sums, serr := calcAll(algs, priv)
@@ -258,8 +337,16 @@ func tableSnapshot(e *Env) string {
 func c20Child(e *Env, mode string) {
 	r := e.R
 	switch mode {
-	case "workload-child", "race-workload-child":
+	case "workload-child", "race-workload-child", "absent-workload-child":
+		if mode == "absent-workload-child" {
+			servicesAbsent = true
+			codec.Clear() // every frame encode now misses in the checksum registry: that path must be as free of shared writes as the hit path
+		}
+		buildParFailers(e)
 		G, ops, per := 64, e.N(1000, 10000), 3
+		if mode == "absent-workload-child" {
+			ops = e.N(300, 3000)
+		}
 		if mode == "race-workload-child" {
 			ops = e.N(250, 2500)
 		}
@@ -408,11 +495,12 @@ func c20(e *Env) {
 		c20Child(e, e.Args[0])
 		return
 	}
-	r.Rule("expected bytes/messages for 3 canonical values of each of the 170 types are computed first, sequentially; then 64 goroutines (busy-wait barrier, no channel or shared atomic inside the measured region) each perform 1000 (thorough 10000) encode+decode operations on randomly chosen cases, on private clones, private send buffers that still hold the frames queued before, and private receivers — frames and extended messages included, so the checksum registry and all 18 discriminator maps are read concurrently — plus, every fourth operation, a direct Calc of all four registered checksum services on a private buffer; then 200 goroutines under GOMAXPROCS=256 decoding messages with 20 000-element object lists (far more than 64 calls inside a list reader at once); the same workload with 250/2500 operations per goroutine in a -race build; first-use trials: 4 (thorough 32) fresh processes (alternating plain / -race builds) in which the very first touch of every table and checksum service happens concurrently from 16 goroutines, judged against the reference codec. distinct_nontrivial = distinct (type,type) pairs whose calls were observed overlapping in real time, summed over the runs")
+	r.Rule("expected bytes/messages for 3 canonical values of each of the 170 types are computed first, sequentially; then 64 goroutines (busy-wait barrier, no channel or shared atomic inside the measured region) each perform 1000 (thorough 10000) encode+decode operations on randomly chosen cases, on private clones, private send buffers that still hold the frames queued before, and private receivers — frames and extended messages included, so the checksum registry and all 18 discriminator maps are read concurrently — plus, every fourth operation, a direct Calc of all four registered checksum services on a private buffer, and every sixteenth an encode that must fail (a body that refuses, an unregistered key with absent body, an over-long list) into a discarded buffer; a third workload child runs with the checksum registry emptied first; then 200 goroutines under GOMAXPROCS=256 decoding messages with 20 000-element object lists (far more than 64 calls inside a list reader at once); the same workload with 250/2500 operations per goroutine in a -race build; first-use trials: 4 (thorough 32) fresh processes (alternating plain / -race builds) in which the very first touch of every table and checksum service happens concurrently from 16 goroutines, judged against the reference codec. distinct_nontrivial = distinct (type,type) pairs whose calls were observed overlapping in real time, summed over the runs")
 	r.Explain("Oracle: every parallel result equals the sequential one (bytes byte-for-byte, messages ≡); zero race-detector reports (counted from the log) and no runtime 'concurrent map' abort; the registered key→type answers of all 18 factories are identical before and after. Evidence numbers (overlapping call pairs, concurrency histogram, distinct overlapping type pairs) are computed offline from per-goroutine logs.")
 	r.Assume("the exported Registry…Factory mutators are not called concurrently: the property says tables are only read after start-up", "the race detector judges only the accesses the workload performed")
 	type run struct{ bin, mode, label string }
-	runs := []run{{os.Getenv("VERIF_BIN"), "workload-child", "plain_build_workload"}, {os.Getenv("VERIF_BIN_RACE"), "race-workload-child", "race_build_workload"}}
+	runs := []run{{os.Getenv("VERIF_BIN"), "workload-child", "plain_build_workload"}, {os.Getenv("VERIF_BIN_RACE"), "race-workload-child", "race_build_workload"},
+		{os.Getenv("VERIF_BIN"), "absent-workload-child", "plain_build_workload_with_checksum_services_unregistered"}}
 	if e.Thorough {
 		// the same workloads again with fewer processors: different interleavings (more preemption inside calls)
 		runs = append(runs, run{os.Getenv("VERIF_BIN_RACE"), "race-workload-child", "race_build_workload_GOMAXPROCS_2"}, run{os.Getenv("VERIF_BIN"), "workload-child", "plain_build_workload_GOMAXPROCS_4"})
